@@ -74,6 +74,7 @@ class Prop(BaseProp):
             return Verdict('skip', case)
         lic = P.licensing(table)
         il = impl.ltok_c(lic, text)
+        impl.prewarm(lic, text, {})
         ip = impl.outcome(lambda: lic.parse(text))
         if not (P.is_ok(il) and P.is_ok(ip)):
             return Verdict('skip', case, tags=['unparsable'])
